@@ -3,3 +3,4 @@ import MillerModel.Props.C07
 import MillerModel.Props.C08
 import MillerModel.Props.C01
 import MillerModel.Props.C11
+import MillerModel.Props.C12
